@@ -1,4 +1,82 @@
+(* C54: compressed responses decompress to the original body.  Property theorems only.
+   The codec (compress/gzip, andybalholm/brotli and the client's decompressor) is abstract: W is the compressor
+   state, wwrite/wflush/wclose return the bytes they append to the output, decomp is the decompressor. *)
 From Coq Require Import List ZArith Bool.
-From Bfe Require Import lib.Val model.Compress run.RunC54.
-Example C54_placeholder : True. Proof. exact I. Qed.
-Print Assumptions C54_placeholder.
+From Bfe Require Import lib.Val lib.ValProofs lib.Bytes model.StaticFile model.Compress proofs.CompressProofs run.RunC54.
+Import ListNotations.
+Open Scope Z_scope.
+
+(* For every codec that round-trips (any writes with flushes anywhere, then close, decompress to the concatenation
+   of the writes) and whose flush always emits something: for every backend body, every way the backend hands it
+   out in chunks (including empty reads), every flush size > 0 and every sequence of client read-buffer sizes ps,
+   if the client reading GzipFilter/BrotliFilter.Read reaches EOF, the bytes it received decompress to exactly
+   the backend body. *)
+Theorem C54_decodes_to_original :
+  forall (W : Type) (wwrite : W -> bytes -> W * bytes) (wflush wclose : W -> W * bytes) (w0 : W)
+         (decomp : bytes -> option bytes),
+  (forall ops, no_close ops -> decomp (snd (wexec W wwrite wflush wclose w0 (ops ++ [OC]))) = Some (writes ops)) ->
+  (forall w, snd (wflush w) <> []) ->
+  forall chunks flush ps cs outs, 0 < flush ->
+  consume W wwrite wflush wclose flush {| f_src := chunks; f_w := w0; f_buf := []; f_closed := false |} ps = (cs, outs, true) ->
+  decomp outs = Some (concat chunks).
+Proof. exact decodes_to_original_sec. Qed.
+Print Assumptions C54_decodes_to_original.
+
+(* The two codec hypotheses are satisfiable (a concrete framing codec), so the theorem is not vacuous. *)
+Theorem C54_codec_hypotheses_satisfiable :
+  (forall ops, no_close ops -> t_decomp (snd (wexec unit t_write t_flush t_close tt (ops ++ [OC]))) = Some (writes ops)) /\
+  (forall w, snd (t_flush w) <> []).
+Proof. exact (conj t_codec_ok t_flush_emits). Qed.
+Print Assumptions C54_codec_hypotheses_satisfiable.
+
+(* Each Read pulls min(flushSize, what is left) bytes from the backend, however the backend chunks its data. *)
+Theorem C54_read_consumes_min : forall chunks n, 0 <= n -> total (fst (take_n n chunks)) = Z.min n (total chunks).
+Proof. exact take_n_total. Qed.
+Print Assumptions C54_read_consumes_min.
+
+(* Header decisions of compressHandler, for every Accept-Encoding, response Content-Encoding and rule:
+   when the module wraps the body (h_wrapped <> 0) then the announced Content-Encoding is the filter applied,
+   the request's Accept-Encoding has that token and the rule's command asks for it (C54_only_if_accepted);
+   Content-Length is gone (C54_no_stale_content_length); the response was not already encoded; a rule matched. *)
+Theorem C54_only_if_accepted_no_stale_length : forall ae cenc has_clen has_rule cmd,
+  let r := handler ae cenc has_clen has_rule cmd in
+  h_wrapped r <> 0 ->
+  ((h_wrapped r = 1 /\ h_cenc r = GZIP /\ has_token ae GZIP = true /\ cmd = 0) \/
+   (h_wrapped r = 2 /\ h_cenc r = BR /\ has_token ae BR = true /\ cmd = 1)) /\
+  h_has_clen r = false /\ (cenc = [] \/ cenc = IDENTITY) /\ has_rule = true.
+Proof. exact handler_only_if_accepted. Qed.
+Print Assumptions C54_only_if_accepted_no_stale_length.
+
+(* when it does not wrap the body, Content-Encoding and Content-Length are left as they were *)
+Theorem C54_untouched_when_not_compressed : forall ae cenc has_clen has_rule cmd,
+  let r := handler ae cenc has_clen has_rule cmd in
+  h_wrapped r = 0 -> h_cenc r = cenc /\ h_has_clen r = has_clen.
+Proof. exact handler_untouched. Qed.
+Print Assumptions C54_untouched_when_not_compressed.
+
+(* a response that already carries a Content-Encoding other than "identity" is never touched *)
+Theorem C54_already_encoded_untouched : forall ae cenc has_clen has_rule cmd,
+  cenc <> [] -> cenc <> IDENTITY ->
+  handler ae cenc has_clen has_rule cmd = {| h_cenc := cenc; h_has_clen := has_clen; h_wrapped := 0 |}.
+Proof. exact handler_already_encoded. Qed.
+Print Assumptions C54_already_encoded_untouched.
+
+(* the executable property predicate holds of the model on every well-shaped input of either operation *)
+Theorem C54_prop_of_model_filter : forall codec level flush cs p,
+  let i := VL [VZ 1; VZ codec; VZ level; VZ flush; vLB cs; VZ p] in prop_C54 i (run_C54 i) = true.
+Proof. exact prop_of_model_filter. Qed.
+Print Assumptions C54_prop_of_model_filter.
+Theorem C54_prop_of_model_handler : forall cmd has_rule ae cenc has_cl level flush body,
+  let i := VL [VZ 2; VZ cmd; VZ has_rule; VB ae; VB cenc; VZ has_cl; VZ level; VZ flush; VB body] in
+  prop_C54 i (run_C54 i) = true.
+Proof. exact prop_of_model_handler. Qed.
+Print Assumptions C54_prop_of_model_handler.
+
+(* Non-vacuity: body 10..15 in chunks of 3, 2, 1 bytes, flush size 4, client buffers 3, 100, 1, 100: the reads pull
+   4, 2, 0 (close), 0 (EOF) bytes and the received stream decodes to the body. *)
+Example C54_example :
+  consume unit t_write t_flush t_close 4
+    {| f_src := [[10; 11; 12]; [13; 14]; [15]]; f_w := tt; f_buf := []; f_closed := false |} [3; 100; 1; 100; 100; 100]
+  = ([4; 2; 0; 0], [1; 10; 1; 11; 1; 12; 1; 13; 0; 1; 14; 1; 15; 0; 2], true)
+  /\ t_decomp [1; 10; 1; 11; 1; 12; 1; 13; 0; 1; 14; 1; 15; 0; 2] = Some [10; 11; 12; 13; 14; 15].
+Proof. exact C54_example_lemma. Qed.
